@@ -447,6 +447,10 @@ class PathEval(object):
             return None
         if k == "Call":
             fn = n.get("fn")
+            if fn == "realloc" and (self.custom_effect is None or self.custom_effect(f, n, env)):
+                out.terminals.append(("effect", None, err, f.loc(n), False))
+                if not self.through:
+                    return "stop"
             if fn in ("malloc", "calloc", "strdup", "realloc"):
                 # allocation may fail (NULL, errno = ENOMEM) or succeed (non-NULL, modelled as 1)
                 ck = "@%d" % n["id"]
